@@ -162,11 +162,16 @@ def frames(prop, tier, seed):
     def resets_of(fi, depth=0):
         """fields of self.lex assigned a constant by the method, or by a helper method of the same class it calls"""
         out = set()
+        lex_aliases = set()
+        for st in ast.walk(fi.node):
+            if isinstance(st, ast.Assign) and len(st.targets) == 1 and isinstance(st.targets[0], ast.Name) \
+                    and isinstance(st.value, ast.Attribute) and chain(st.value) == ['self', 'lex']:
+                lex_aliases.add(st.targets[0].id)
         for st in ast.walk(fi.node):
             if isinstance(st, ast.Assign) and isinstance(st.value, ast.Constant):
                 for t in st.targets:
                     c = chain(t) if isinstance(t, ast.Attribute) else None
-                    if c and c[:-1] == ['self', 'lex']:
+                    if c and (c[:-1] == ['self', 'lex'] or (len(c) == 2 and c[0] in lex_aliases)):
                         out.add(c[-1])
             if isinstance(st, ast.Call) and isinstance(st.func, ast.Attribute) and depth < 2:
                 c = chain(st.func)
